@@ -259,6 +259,56 @@ theorem stale_grid_counterexample :
       = [.ok [10, 28, 31], .ok [10, 13, 16]] := by
   refine ⟨by decide, by decide, by rfl⟩
 
+/-! ### the grid is an arbitrary list: repeated times, translated grids
+
+`rows_correct` quantifies over EVERY list of times.  Two consequences that the harness probes on the real code (grids with
+replicate times, grids far from the time origin) are stated outright. -/
+
+/-- **row_at_requested_time.**  Under the hypothesis of `rows_correct`, the row returned for the `i`-th requested time is
+the flow at that time — whatever the other times of the grid are (before it, after it, equal to it). -/
+theorem row_at_requested_time (S : Sys T X) (L : Laws S) (c : ICfg) (x0 : X) (t0 : T) (ts : List T)
+    (h : c.copyOnRead = true ∨ c.aliased (startIntegrator c.method) = false ∨ c.fullOutput = true)
+    (i : Nat) (hi : i < ts.length) :
+    (integrateFuncJacL S c x0 t0 ts).rows[(if c.includeOrigin then 1 else 0) + i]? = some (S.flow ts[i] t0 x0) := by
+  rw [rows_correct S L c x0 t0 ts h]
+  cases c.includeOrigin
+  · simp [hi]
+  · simp [Nat.add_comm 1 i, hi]
+
+/-- **repeated_times_equal_rows.**  A time requested twice (replicate observations, `[1, 2, 2, 4, 6, 6, 8]`) gets the
+same row twice: the flow at that time, not the initial state and not the previous row's neighbour. -/
+theorem repeated_times_equal_rows (S : Sys T X) (L : Laws S) (c : ICfg) (x0 : X) (t0 : T) (ts : List T)
+    (h : c.copyOnRead = true ∨ c.aliased (startIntegrator c.method) = false ∨ c.fullOutput = true)
+    (i j : Nat) (hi : i < ts.length) (hj : j < ts.length) (heq : ts[i] = ts[j]) :
+    (integrateFuncJacL S c x0 t0 ts).rows[(if c.includeOrigin then 1 else 0) + i]?
+      = (integrateFuncJacL S c x0 t0 ts).rows[(if c.includeOrigin then 1 else 0) + j]? := by
+  rw [row_at_requested_time S L c x0 t0 ts h i hi, row_at_requested_time S L c x0 t0 ts h j hj, heq]
+
+/-- **rows_translation_invariant.**  For a translation-invariant flow (an autonomous system) the rows do not depend on
+where the grid sits on the time axis: moving `t0` and every requested time by the same `d` (to day 738000, say) returns
+the same rows.  No closeness test on times (absolute or relative to `|t|`) occurs in the bookkeeping. -/
+theorem rows_translation_invariant [Add T] (S : Sys T X) (L : Laws S) (c : ICfg) (x0 : X) (t0 d : T) (ts : List T)
+    (h : c.copyOnRead = true ∨ c.aliased (startIntegrator c.method) = false ∨ c.fullOutput = true)
+    (hflow : ∀ t s x, S.flow (t + d) (s + d) x = S.flow t s x) :
+    (integrateFuncJacL S c x0 (t0 + d) (ts.map (· + d))).rows = (integrateFuncJacL S c x0 t0 ts).rows := by
+  rw [rows_correct S L c x0 (t0 + d) _ h, rows_correct S L c x0 t0 ts h]
+  simp [List.map_map, Function.comp_def, hflow]
+
+/-- a variant of the loop that "needs no step" when the requested time is the time the integrator stands at and hands out
+the INITIAL state there (seeded change C06-c1; C02-c1 is the same test made with a relative tolerance) -/
+def shortcutRows (S : Sys T X) [DecidableEq T] (x0 : X) (t0 : T) (ts : List T) : List X :=
+  (ts.foldl (fun (acc : T × X × List X) dt =>
+      if dt = acc.1 then (acc.1, acc.2.1, acc.2.2 ++ [x0])
+      else (dt, S.flow dt acc.1 acc.2.1, acc.2.2 ++ [S.flow dt acc.1 acc.2.1])) (t0, x0, [])).2.2
+
+/-- **repeated_time_shortcut_counterexample.**  On the grid `[1, 2, 2]` the variant returns the initial state for the
+replicate, the model of the real code the flow at `t = 2` twice. -/
+theorem repeated_time_shortcut_counterexample :
+    let S : Sys Int Int := { flow := fun t t0 x => x + 3 * (t - t0), eig := fun _ _ => (-1, -3) }
+    let c : ICfg := { aliased := fun _ => false, copyOnRead := true, fullOutput := false, includeOrigin := false, method := none }
+    shortcutRows S 10 0 [1, 2, 2] = [13, 16, 10] ∧ (integrateFuncJacL S c 10 0 [1, 2, 2]).rows = [13, 16, 16] := by
+  decide
+
 /-! ### the driver's executable instance satisfies the laws -/
 
 theorem linFlow_id (c : List Rat) (t : Rat) (x : List Rat) : linFlow c t t x = x := by
@@ -294,6 +344,10 @@ def demoCfg (copy full : Bool) : ICfg :=
 /-- hypotheses of `rows_correct` are satisfiable, and its conclusion is what evaluation gives -/
 example : (integrateFuncJacL demoSys (demoCfg true false) 10 0 [1, 2, 5]).rows = [10, 13, 16, 25] := by decide
 example : (integrateFuncJacL demoSys (demoCfg false true) 10 0 [1, 2, 5]).rows = [10, 13, 16, 25] := by decide
+/-- `repeated_times_equal_rows` / `rows_translation_invariant`: replicate times, and the same grid moved by 738000 -/
+example : (integrateFuncJacL demoSys (demoCfg true false) 10 0 [1, 2, 2, 5]).rows = [10, 13, 16, 16, 25] := by decide
+example : (integrateFuncJacL demoSys (demoCfg true false) 10 738000 [738001, 738002, 738002, 738005]).rows = [10, 13, 16, 16, 25] := by decide
+example : ∀ t s x : Int, demoSys.flow (t + 738000) (s + 738000) x = demoSys.flow t s x := by intro t s x; simp only [demoSys]; omega
 /-- hypotheses of `rows_aliased` are satisfiable: lsoda aliases, no copy, single-integrator path -/
 example : (integrateFuncJacL demoSys (demoCfg false false) 10 0 [1, 2, 5]).rows = [10, 25, 25, 25] := by decide
 example : (demoCfg false false).aliased (startIntegrator (demoCfg false false).method) = true ∧
